@@ -65,7 +65,7 @@ func genCCase(t *rapid.T, backend string) CCase {
 }
 
 func genCCase0(t *rapid.T, backend string) CCase {
-	c := CCase{Backend: backend}
+	c := CCase{Backend: backend, Slash: rapid.SampledFrom([]int{0, 0, 0, 1, 2}).Draw(t, "leadingSlashes")}
 	shape := rapid.SampledFrom([]string{"mixed", "mixed", "mixed", "creators", "cas_race"}).Draw(t, "shape")
 	maxT := vstat.Pick(6, 8)
 	nt := rapid.IntRange(2, maxT).Draw(t, "threads")
@@ -121,6 +121,9 @@ func runC02(t vstat.TB, test string, c CCase) {
 		st.Inconclusivef("porcupine gave up on a history of %d operations (not a violation)", len(hist))
 	}
 	cl := append(info.Classes, "backend:"+c.Backend)
+	if c.Slash > 0 {
+		cl = append(cl, "keys_spelled_with_leading_slashes")
+	}
 	// distinct = the program plus the overlap pattern actually observed
 	type ov struct{ A, B int64 }
 	sig := make([]ov, 0, len(hist))
@@ -173,6 +176,7 @@ func storageMatchesRecorded() bool { return vstat.EnvInt("VERIF_REPLAY_TRUST_HIS
 func genSchedCase(t *rapid.T) SchedCase {
 	var c SchedCase
 	c.Backend = "redis"
+	c.Slash = rapid.SampledFrom([]int{0, 0, 1, 2}).Draw(t, "leadingSlashes")
 	shape := rapid.SampledFrom([]string{"mixed", "mixed", "pairs", "creators", "cas_race"}).Draw(t, "shape")
 	nt := rapid.IntRange(2, 4).Draw(t, "threads")
 	switch shape {
@@ -245,6 +249,9 @@ func runC02Wire(t vstat.TB, test string, c SchedCase) {
 		st.Inconclusivef("porcupine gave up on a history of %d operations (not a violation)", len(hist))
 	}
 	cl := append(info.Classes, "backend:redis", "wire_scheduled")
+	if c.Slash > 0 {
+		cl = append(cl, "keys_spelled_with_leading_slashes")
+	}
 	// non-trivial: commands of different threads really alternated inside a multi-command call
 	switches := 0
 	for i := 1; i < len(cmdlog); i++ {
